@@ -130,9 +130,9 @@ func runCheck(prop, tier, repo, verif, only string, updateBaseline bool) int {
 	if t := os.Getenv("VERIF_TIER"); t != "" && tier == "" {
 		tier = t
 	}
-	timeout, need := 40, 1
+	timeout, need := 90, 1
 	if tier == "thorough" {
-		timeout, need = 120, 2
+		timeout, need = 240, 2
 	}
 	if s := os.Getenv("GOVC_TIMEOUT"); s != "" {
 		timeout, _ = strconv.Atoi(s)
